@@ -11,6 +11,105 @@ sys.path.insert(0, os.path.dirname(os.path.abspath(__file__)))
 from rules.core import facts, report  # noqa: E402
 
 
+WITNESS_PROPS = {"C02": "C02", "C10": "C10", "C15": "C15"}
+
+
+def thorough(chk, prop, mod, repo):
+    """Thorough tier = quick + (1) the same rules on a second extraction with overflow checks and
+    debug assertions off (release semantics), (2) the compile-fail witnesses with their compiling
+    twins, (3) the self-test corpus of this property (mutants must be reported, benign refactors
+    must stay silent) on scratch copies outside /repo and /verif."""
+    import re
+    import shutil
+    import subprocess
+    import tempfile
+    here = os.path.dirname(os.path.dirname(os.path.abspath(__file__)))
+    # (1) release configuration
+    f2 = facts.load(repo, "rel")
+    chk2 = report.Check(prop, "thorough", chk.seed)
+    mod.run(chk2, {"facts": f2, "tier": "thorough", "repo": repo, "replay": None})
+    for o in chk2.obligations:
+        o = dict(o)
+        o["id"] = "rel:" + o["id"]
+        chk.obligations.append(o)
+    for v in chk2.violations:
+        v = dict(v)
+        v["key"] = "rel:" + v["key"]
+        v["msg"] = "[release configuration] " + v["msg"]
+        chk.violations.append(v)
+    chk.analysed["release_config"] = {"build_config": f2.config, "rule_instances": len(chk2.obligations), "violations": len(chk2.violations)}
+    # (2) witnesses
+    if prop in WITNESS_PROPS:
+        wdir = os.path.join(here, "witness")
+        shutil.copy(os.path.join(repo, "Cargo.lock"), os.path.join(wdir, "Cargo.lock"))
+        toml = open(os.path.join(wdir, "Cargo.toml")).read()
+        env = dict(os.environ, CARGO_TARGET_DIR=os.path.join(here, ".cache", "witness-target"), CARGO_NET_OFFLINE="true")
+        tmp_toml = None
+        if repo != "/repo":
+            # witnesses name the crate through a path dependency: point it at the tree under analysis
+            tdir = tempfile.mkdtemp(prefix="witness-")
+            shutil.copytree(os.path.join(wdir, "src"), os.path.join(tdir, "src"))
+            open(os.path.join(tdir, "Cargo.toml"), "w").write(toml.replace('path = "/repo"', 'path = "%s"' % repo))
+            shutil.copy(os.path.join(repo, "Cargo.lock"), os.path.join(tdir, "Cargo.lock"))
+            wdir, tmp_toml = tdir, tdir
+        p = subprocess.run(["cargo", "+nightly", "test", "--doc", "--offline"], cwd=wdir, env=env, stdout=subprocess.PIPE, stderr=subprocess.STDOUT, text=True)
+        if tmp_toml:
+            shutil.rmtree(tmp_toml, ignore_errors=True)
+        tests = re.findall(r"^test src/lib\.rs - (\w+) \(line (\d+)\)( - compile fail)? \.\.\. (\w+)", p.stdout, re.M)
+        mine = [t for t in tests if t[0].startswith(WITNESS_PROPS[prop])]
+        if not mine:
+            chk.fail("CF", "CF:%s:witnesses-ran" % prop, "the witness doc-tests did not run: %s" % p.stdout[-400:])
+        ordn = {}
+        for name, line, cf, res in mine:
+            ordn[name] = ordn.get(name, 0) + 1
+            kind = "compile_fail" if cf.strip() == "- compile fail" else "twin"
+            chk.require(res == "ok", "CF", "CF:%s:%s#%d" % (name, kind, ordn[name]), "%s witness holds" % kind, "witness %s (%s) no longer behaves as expected: %s" % (name, kind, res), "witness/src/lib.rs:%s" % line)
+    # (3) self-test corpus
+    corpus = os.path.join(here, "selftest", "corpus.json")
+    if os.path.exists(corpus):
+        import json as _json
+        cases = [c for c in _json.load(open(corpus)) if prop in c["props"]]
+        scratch = tempfile.mkdtemp(prefix="verif-selftest-%s-" % prop)
+        det = sil = 0
+        try:
+            for c in cases:
+                dst = os.path.join(scratch, "tree")
+                shutil.rmtree(dst, ignore_errors=True)
+                os.makedirs(dst)
+                for item in ("src", "Cargo.toml", "Cargo.lock"):
+                    s_ = os.path.join(repo, item)
+                    if os.path.isdir(s_):
+                        shutil.copytree(s_, os.path.join(dst, item))
+                    else:
+                        shutil.copy(s_, dst)
+                applies = True
+                for e in c["edits"]:
+                    fp = os.path.join(dst, e["file"])
+                    src = open(fp).read()
+                    if src.count(e["old"]) != 1:
+                        applies = False
+                        break
+                    open(fp, "w").write(src.replace(e["old"], e["new"]))
+                if not applies:
+                    # the corpus is written against the unchanged tree; on an edited tree a case may not apply
+                    chk.ok("SELFTEST", "selftest:%s:not-applicable-to-this-tree" % c["name"], "edit does not apply uniquely", nontrivial=False)
+                    continue
+                envc = dict(os.environ, VERIF_REPO=dst, VERIF_EVIDENCE_DIR=os.path.join(scratch, "evidence"), VERIF_TIER="quick")
+                r = subprocess.run([os.path.join(here, "check"), prop, "--tier", "quick"], env=envc, stdout=subprocess.PIPE, stderr=subprocess.STDOUT, text=True)
+                want = 0 if c.get("benign") else 1
+                if c.get("benign"):
+                    sil += (r.returncode == 0)
+                else:
+                    det += (r.returncode == 1)
+                # a self-test mismatch is a defect of the checker, reported on stderr and in the evidence, not a property violation
+                if r.returncode != want:
+                    sys.stderr.write("self-test mismatch for %s on %s: rc=%d, expected %d\n" % (prop, c["name"], r.returncode, want))
+                chk.extra.setdefault("selftest_cases", []).append({"name": c["name"], "benign": bool(c.get("benign")), "rc": r.returncode, "as_expected": r.returncode == want})
+        finally:
+            shutil.rmtree(scratch, ignore_errors=True)
+        chk.extra["selftest"] = {"mutants": len([c for c in cases if not c.get("benign")]), "mutants_reported": det, "benign_refactors": len([c for c in cases if c.get("benign")]), "benign_silent": sil}
+
+
 def main():
     ap = argparse.ArgumentParser()
     ap.add_argument("prop")
@@ -35,6 +134,8 @@ def main():
             with open(a.replay) as fh:
                 ctx["replay"] = json.load(fh)
         mod.run(chk, ctx)
+        if a.tier == "thorough" and not a.replay:
+            thorough(chk, prop, mod, a.repo)
         rc = chk.finish(f)
         if a.replay:
             want = set(v["key"] for v in ctx["replay"].get("violations", []))
